@@ -20,7 +20,7 @@ PARTS = ["corpus_all", "corpus_format", "corpus_layout", "adjacency", "mutants",
 def describe(t: dict, r: dict):
     case = t["case"]
     how, kinds = fs.lex_signature(t)
-    rule = fs.culprit_by_single_rule(t, lambda x: x["clean0"] and fs.relex_diff(x) is not None)
+    rule = fs.glue_culprit(t) or fs.culprit_by_single_rule(t, lambda x: x["clean0"] and fs.relex_diff(x) is not None)
     d = fs.relex_diff(t)
     sig = {"rule": rule, "how": how, "kinds": kinds}
     det = f"leaves {[x[0] for x in d[1]]} re-lex as {[x[0] for x in d[2]]}" if d else ""
